@@ -153,7 +153,8 @@ class InterestTreeNode:
 
     def nack_interest(self, nack_reason: int) -> bool:
         for entry in self.pending_list:
-            entry.future.set_exception(types.InterestNack(nack_reason))
+            if not entry.future.done():
+                entry.future.set_exception(types.InterestNack(nack_reason))
         return True
 
     def satisfy(self, data: types.DataTuple, is_prefix: bool) -> bool:
@@ -567,13 +568,20 @@ class NDNApp:
         try:
             data_name, content, pkt_context = await aio.wait_for(future, timeout=lifetime/1000.0)
         except TimeoutError:
-            if node.timeout(future):
-                del self._pit[node_name]
+            self._remove_pending(future, node_name, node)
             raise types.InterestTimeout()
         except aio.CancelledError:
+            self._remove_pending(future, node_name, node)
             raise types.InterestCanceled()
         # ValidationError, InterestNack are passed to the parent caller
         return data_name, content, pkt_context
+
+    def _remove_pending(self, future: aio.Future, node_name: enc.FormalName, node: InterestTreeNode):
+        # The node may already be unlinked from the PIT (all its entries were satisfied, or the PIT was
+        # cleared), and a new node may have been created under the same name since.
+        # Only remove the node this Interest was added to.
+        if node.timeout(future) and self._pit.get(node_name) is node:
+            del self._pit[node_name]
 
     async def _on_data(self, name: enc.FormalName, meta_info: enc.MetaInfo,
                        content: enc.BinaryStr | None, sig: enc.SignaturePtrs,
